@@ -17,9 +17,21 @@ import re  # noqa (re-exported for suites)
 
 VERIF = os.path.dirname(os.path.dirname(os.path.abspath(__file__)))
 REPO = os.environ.get('VERIF_REPO', '/repo')
-COQ = os.path.join(VERIF, 'coq')
 BUILD = os.path.join(VERIF, 'build')
-EVID = os.path.join(VERIF, 'evidence')
+if os.path.realpath(REPO) == '/repo' or os.environ.get('VERIF_SHARED_COQ'):
+    COQ = os.path.join(VERIF, 'coq')
+else:
+    # checks run against a scratch copy of the repository (self-test, seeded
+    # mutations) get their own copy of the Coq tree, so Gen/ regenerated from the
+    # scratch copy never disturbs the build for /repo.
+    COQ = os.path.join(BUILD, 'alt_' + hashlib.sha1(os.path.realpath(REPO).encode()).hexdigest()[:10], 'coq')
+    os.makedirs(COQ, exist_ok=True)
+    subprocess.run(['rsync', '-a', '--delete', '--exclude', 'Gen/*.v', '--exclude', 'Gen/*.vo', '--exclude', 'Gen/*.glob',
+                    '--exclude', 'Gen/.*.aux', '--exclude', '.Makefile.d', '--exclude', 'Makefile', '--exclude', 'Makefile.conf',
+                    os.path.join(VERIF, 'coq') + '/', COQ + '/'], check=True)
+    EVID_ALT = True
+EVID = os.path.join(VERIF, 'evidence') if os.path.realpath(REPO) == '/repo' else os.path.join(
+    BUILD, 'alt_' + hashlib.sha1(os.path.realpath(REPO).encode()).hexdigest()[:10], 'evidence')
 REPLAYS = os.path.join(EVID, 'replays')
 NPROC = int(os.environ.get('VERIF_JOBS', '16'))
 
@@ -124,7 +136,7 @@ def write_if_changed(path, text):
 class BuildLock:
     def __enter__(self):
         os.makedirs(BUILD, exist_ok=True)
-        self.f = open(os.path.join(BUILD, '.lock'), 'w')
+        self.f = open(os.path.join(BUILD, '.lock_' + hashlib.sha1(COQ.encode()).hexdigest()[:8]), 'w')
         fcntl.flock(self.f, fcntl.LOCK_EX)
         return self
 
